@@ -1,4 +1,5 @@
 import ParryModel.C04.Theorems1
+import ParryModel.C04.Theorems3
 import ParryModel.C04.ModelGlue
 /-!
 # C04 property theorems, part 6: the boolean forms `intersects_local_ray` / `intersects_ray`
@@ -177,6 +178,57 @@ theorem halfspace_intersectsRay_iff (s : HalfSpace3 K) (m : Iso3 K) (ray : Ray3 
     (s.intersectsRay m ray max = true ↔ SegMeets (fun p => s.Mem (m.invAct p)) (rayPt sq ray) max) :=
   firstHit_isSome_iff _ _ _ _
     ((firstHit_posed sq _ m ray max _).1 (halfspace_cast_solid_firstHit sq s (@Ray3.invTransform K (fieldNum K sq) ray m) max hmax))
+
+/-! ## 2-D crate: posed `Ball` and `Cuboid` (default `cast_ray`): posed = local ∘ inverse transform -/
+
+/-- the point of the inverse-transformed 2-D ray is the inverse transform of the point (any complex number `re + i·im`,
+unit or not: `inverse_transform_point/vector` are linear) -/
+theorem rayPt2_invTransform (m : Iso2 K) (ray : Ray2 K) (s : K) :
+    letI := fieldNum K sq
+    rayPt2 sq (ray.invTransform m) s = m.invAct (rayPt2 sq ray s) := by
+  simp only [rayPt2, Ray2.pointAt, Ray2.invTransform, Iso2.invAct, Iso2.invRot, V2.add, V2.sub, V2.smul]
+  congr 1 <;> ring
+
+theorem firstHit_posed2 (S : V2 K → Prop) (m : Iso2 K) (ray : Ray2 K) (max : K) (r : Option K) :
+    letI := fieldNum K sq
+    FirstHit S (rayPt2 sq (ray.invTransform m)) max r ↔ FirstHit (fun p => S (m.invAct p)) (rayPt2 sq ray) max r := by
+  cases r <;> simp only [FirstHit, rayPt2_invTransform]
+
+/-- **2-D `Cuboid::cast_ray`, solid**: first hit of the posed rectangle `{p : m⁻¹·p ∈ cuboid}` along the world ray, time in
+units of the world direction (any length) -/
+theorem cuboid2_posed_solid_firstHit (big : K) (s : Cuboid2 K) (m : Iso2 K) (ray : Ray2 K) (max : K)
+    (hhe : 0 ≤ s.he.x ∧ 0 ≤ s.he.y) (hmax0 : 0 ≤ max) (hmaxb : max ≤ big) :
+    letI := fieldNum K sq
+    FirstHit (fun p => s.Mem (m.invAct p)) (rayPt2 sq ray) max (s.castRay big m ray max true) :=
+  (firstHit_posed2 sq _ m ray max _).1
+    (cuboid2_cast_solid_firstHit sq big s (@Ray2.invTransform K (fieldNum K sq) ray m) max hhe hmax0 hmaxb)
+
+/-- **2-D `Ball::cast_ray`, solid** (unit complex rotation, non-zero world direction) -/
+theorem ball2_posed_solid_firstHit (hs : LawfulSqrt sq) (b : Ball K) (m : Iso2 K) (ray : Ray2 K) (max : K)
+    (hq : m.re * m.re + m.im * m.im = 1) :
+    letI := fieldNum K sq
+    0 < ray.d.normSq →
+    FirstHit (fun p => b.Mem2 (m.invAct p)) (rayPt2 sq ray) max (b.castRay2 m ray max true) := by
+  intro ha
+  have hd : 0 < @V2.normSq K (fieldNum K sq) (@Ray2.invTransform K (fieldNum K sq) ray m).d := by
+    have e : @V2.normSq K (fieldNum K sq) (@Ray2.invTransform K (fieldNum K sq) ray m).d =
+        (m.re * m.re + m.im * m.im) * @V2.normSq K (fieldNum K sq) ray.d := by
+      simp only [Ray2.invTransform, Iso2.invRot, V2.normSq, V2.dot]; ring
+    rw [e, hq, one_mul]; exact ha
+  exact (firstHit_posed2 sq _ m ray max _).1
+    (ball2_cast_solid_firstHit sq hs b (@Ray2.invTransform K (fieldNum K sq) ray m) max hd)
+
+/-- the posed normal forms report the time of the local normal forms on the inverse-transformed ray (default
+`cast_ray_and_get_normal`; the normal is rotated back) -/
+theorem posed2_normal_toi (big : K) (b : Ball K) (s : Cuboid2 K) (m : Iso2 K) (ray : Ray2 K) (max : K) (solid : Bool) :
+    letI := fieldNum K sq
+    (b.castRayAndGetNormal2 m ray max solid).map (·.toi) =
+        (b.castLocalRayAndGetNormal2 (ray.invTransform m) max solid).map (·.toi) ∧
+    (s.castRayAndGetNormal big m ray max solid).map (·.toi) =
+        (s.castLocalRayAndGetNormal big (ray.invTransform m) max solid).map (·.toi) := by
+  constructor
+  · simp only [Ball.castRayAndGetNormal2, Option.map_map]; rfl
+  · simp only [Cuboid2.castRayAndGetNormal, Option.map_map]; rfl
 
 /-- non-vacuity (over `ℚ`, `sqrt` not needed for the box): the segment from `(3,0,0)` along `(-1,0,0)` up to `max = 2` meets
 the unit cube (at `t = 2`), up to `max = 1` it does not; hypotheses `0 ≤ he`, `0 ≤ max ≤ big` hold -/
